@@ -102,7 +102,8 @@ def _scalar_boundaries(s):
         prec = g("precision")
         for b in (g("value"), g("min"), g("max")):
             if isinstance(b, float) and math.isfinite(b):
-                out += [b, math.nextafter(b, math.inf), math.nextafter(b, -math.inf), b * (1 + 5e-10), b * (1 - 5e-10),
+                out += [b * 2, b / 2, -b, float("inf"), float("-inf"),
+                        b, math.nextafter(b, math.inf), math.nextafter(b, -math.inf), b * (1 + 5e-10), b * (1 - 5e-10),
                         b * (1 + 2e-9), b * (1 - 2e-9), b + 1e-9, b - 1e-9]
                 if prec is not None:
                     q = 10.0 ** (-prec)
@@ -258,6 +259,16 @@ def scalar_corpus():
                   "schema.float.min(v).max(v)", "schema.float.min(v)", "schema.float.max(v)", "schema.float(v).precision(1)",
                   "schema.float(v).precision(1).max(v)", "schema.float(v).precision(2).min(v)", "schema.float.min(v).precision(3)"):
             add(e, v, v=v)
+    # fixed floats whose product with 10**precision leaves the float range (the validator's fallback comparison)
+    for v in (1e300, -1e300, 1e307, 1.7e308, float("inf"), float("-inf")):
+        for e in ("schema.float(v).precision(15)", "schema.float(v).precision(2)", "schema.float(v).precision(1).min(v)",
+                  'schema.dict({"x": schema.float(v).precision(3)})', "schema.list([schema.float(v).precision(10), ...])"):
+            add(e, {"x": v} if "dict" in e else ([v] if "list" in e else v), v=v)
+    # the library's own `...` used as DATA: a key of the value, under relaxed and strict dicts
+    for e, w in (('schema.dict({"id": schema.int, ...: ...})', {"id": 1, ...: "x"}), ("schema.dict({...: ...})", {...: ...}),
+                 ('schema.dict({"id": schema.int})', {"id": 1}), ('schema.list(schema.dict({"a": schema.int, ...: ...}))', [{"a": 1, ...: 2}, {"a": 2}]),
+                 ('schema.any(schema.dict({"k": schema.str, ...: ...}), schema.none)', {"k": "s", ...: None}), ("schema.dict", {...: 1})):
+        add(e, w)
     # precision at and beyond what a double carries, denormals, bounds equal to each other and to the value
     for v in (0.1 + 0.2, 1 / 3, 5e-324, 2.5e-320, 123456789.123456789, 1e22):
         for e in ("schema.float(v).precision(15)", "schema.float(v).precision(16)", "schema.float(v).precision(20)", "schema.float(v).precision(0)",
